@@ -131,6 +131,14 @@ def programs(tier):
     for (a, b) in itertools.combinations(sub, 2):
         ms = [{"id": 0, "shape": xt, "types": {"x": "K0", "type": a}, "prio": 0}, {"id": 1, "shape": xt, "types": {"x": "O", "type": b}, "prio": 0}]
         yield "2n:parameter-named-type", ms, [(m, n) for n in names for m in ("K0()", "K3()", "5")], None
+    # type[...] on a keyword-only parameter
+    xk = gen.SHAPES["x*k"]
+    for (a, b) in itertools.combinations(sub, 2):
+        for body in (None, "cn"):
+            ms = [{"id": 0, "shape": xk, "types": {"x": "K0", "k": a}, "prio": 0}, {"id": 1, "shape": xk, "types": {"x": "O", "k": b}, "prio": 0}]
+            if body:
+                ms = [dict(m, body=body) for m in ms]
+            yield "2k:type-keyword-only", ms, [(m, "k=" + n) for n in names for m in ("K0()", "K3()")], None
     # type[...] in the second position only
     for (a, b) in itertools.combinations(sub, 2):
         ms = [{"id": 0, "shape": xy, "types": {"x": "K0", "y": a}, "prio": 0}, {"id": 1, "shape": xy, "types": {"x": "O", "y": b}, "prio": 0}]
@@ -163,18 +171,20 @@ def check_program(space, mspecs, calls, acc, only=None):
     for call in calls:
         if only is not None and tuple(call) != tuple(only):
             continue
-        args = tuple(value(n) for n in call)
+        # an element "name=VALUE" is passed by keyword
+        args = tuple(value(n) for n in call if "=" not in n)
+        kwargs = {n.split("=", 1)[0]: value(n.split("=", 1)[1]) for n in call if "=" in n}
         rec = call[0].startswith("(")
         inner = (args[0][0],) if rec else args
         try:
             if any(m.get("body") in ("cn", "cnk") for m in mspecs):
-                rkind, rtrace = ref.run(inner, {})
+                rkind, rtrace = ref.run(inner, kwargs)
             else:
-                rkind, rm = ref.decide(inner, {})
+                rkind, rm = ref.decide(inner, kwargs)
                 rtrace = (rm.id,) if rkind == "ret" else ()
         except annot.Abstain:
             rkind = None
-        out = prog.call(args, {})
+        out = prog.call(args, kwargs)
         okind, trace = out[0], out[1]
         if rec:
             trace = tuple(t for t in trace if t != 9)
@@ -182,7 +192,7 @@ def check_program(space, mspecs, calls, acc, only=None):
         if acc is not None:
             acc.count("evaluations")
             acc.h("expected", str(rkind))
-            if rkind is not None and sum(1 for m in ref.methods if ref.applicable(m, inner, {})) >= 2:
+            if rkind is not None and sum(1 for m in ref.methods if ref.applicable(m, inner, kwargs)) >= 2:
                 acc.count("nontrivial")
         if rkind is None:
             if acc is not None:
@@ -235,7 +245,7 @@ def main(tier):
              "type[class with a custom metaclass], type[list[ABC]], a metaclass itself}; passed classes include ABCs, a virtual subclass, classes with a custom "
              "metaclass, an Enum, a runtime protocol, the metaclass itself; all method "
              "sets of <= 3 over one position, pairs over two positions (type[...] first or second, ordinary class in the other), "
-             "a second parameter literally named 'type', call_next chains (arguments passed on positionally / by name) and recurse into tuple elements; passed objects: classes, parametrised generics, nested "
+             "a keyword-only type[...] parameter, a second parameter literally named 'type', call_next chains (arguments passed on positionally / by name) and recurse into tuple elements; passed objects: classes, parametrised generics, nested "
              "parametrisations, typing.List, typing.Any, plain instances; oracle R1-R3 with ref_subtype; abstains (monitor only) when "
              "two applicable type[...] annotations have unrelated generic origins; non-trivial = >= 2 applicable methods",
         assumptions=["ref_subtype of vt/annot.py: subclass for classes; same-or-subclass origin with argument-wise subtyping for generics"],
